@@ -439,7 +439,6 @@ func Filter(rows []any, pred Expr, env *Env) ([]any, bool) {
 	return out, true
 }
 
-
 // EvalAgg computes an aggregate over the member rows.  SUM/MIN/MAX ignore NULL members and are NULL
 // when no non-NULL member exists; AVG and COUNT(col) are specified only for columns without NULLs.
 func EvalAgg(a Agg, members []map[string]any) (any, bool) {
